@@ -2706,8 +2706,12 @@ impl SctpInner {
             }
         }
 
-        // 2. Send RE-CONFIG SSN Reset
-        self.send_reconfig_ssn_reset(&[channel_id]).await?;
+        // 2. Send RE-CONFIG SSN Reset - only over an established association: before that
+        //    the peer's verification tag is not known (the packet would carry tag 0, which
+        //    the peer must discard) and the peer has no stream state to reset yet.
+        if *self.state.lock() == SctpState::Connected {
+            self.send_reconfig_ssn_reset(&[channel_id]).await?;
+        }
 
         // 3. Clean up inbound stream state
         {
